@@ -42,7 +42,11 @@
    slice and its first element share an address and differ in type, so they are different
    [addr]s here), computes [scan] on its side and keeps a case out of the correspondence exactly
    when that extra registration changes the answer for an object the iterator asks about; kinds the iterator panics on
-   (chan, func, complex, uintptr, unsafe pointer, embedded non-struct). *)
+   (chan, func, complex, uintptr, unsafe pointer); embedded library struct types (time.Time,
+   url.URL, types.Media, ... embedded by value: their Kind is Struct, so extractFields flattens
+   their exported fields, while [gval] presents them as leaves).  An embedded field of a
+   non-struct type (type MyInt int, *Inner) is inside the model: an ordinary field named after
+   its type ([flattened]). *)
 From CE Require Export Model.Rules Base.LE.
 Open Scope N_scope.
 
@@ -304,9 +308,14 @@ Definition should_include (cfg : icfg) (i : finfo) (empty zero : bool) : bool :=
   | ODefault => true          (* "should never happen": falls out of the switch *)
   end.
 
-(* extractFields keeps: exported, not tagged `omit`; embedded fields are replaced by the
-   fields of the embedded struct *)
+(* extractFields keeps: exported, not tagged `omit`; an embedded field whose type is a struct
+   (reflectField.Anonymous && reflectField.Type.Kind() == reflect.Struct) is replaced by the
+   fields of the embedded struct; an embedded field of any other type (type MyInt int, *Inner) is
+   an ordinary field named after its type. *)
 Definition extractable (i : finfo) : bool := f_exported i && negb (omit_eqb (f_omit i) OAlways).
+(* the value of an embedded field is a struct that extractFields looks into *)
+Definition is_vstruct (v : gval) : bool := match v with VStruct _ _ => true | _ => false end.
+Definition flattened (i : finfo) (x : gval) : bool := f_anon i && is_vstruct x.
 
 (* sort.SliceStable(fields, Order <): stable insertion sort.  extractFields sorts the
    accumulated list at the end of every (nested) call; sorting a stably sorted prefix again
@@ -375,7 +384,7 @@ Fixpoint walk (cfg : icfg) (v : gval) {struct v} : list event * list item :=
            | [] => []
            | (i, x) :: r =>
                (if extractable i then
-                  if f_anon i then snd (walk cfg x)
+                  if flattened i x then snd (walk cfg x)
                   else [(i, should_include cfg i (is_empty x) (is_value_zero x), fst (walk cfg x))]
                 else []) ++ go r
            end) fs in
@@ -556,7 +565,7 @@ Fixpoint rwalk (cfg : icfg) (dups : list N) (v : gval) {struct v} : emitter * li
            | [] => []
            | (i, x) :: r =>
                (if extractable i then
-                  if f_anon i then snd (rwalk cfg dups x)
+                  if flattened i x then snd (rwalk cfg dups x)
                   else [(i, should_include cfg i (is_empty x) (is_value_zero x), fst (rwalk cfg dups x))]
                 else []) ++ go r
            end) fs in
@@ -811,8 +820,8 @@ Definition record_dval (cfg : icfg) (its : list citem) : dval :=
    of it (a lower-case type name).  extractFields uses [extractable] and drops such an embedded
    struct with everything below it: the open class "promoted field of an unexported embedded
    struct dropped" ([promoted_ok] below excludes it, Props/C05.v refutes the property on it). *)
-Definition cextractable (i : finfo) : bool :=
-  (f_exported i || f_anon i) && negb (omit_eqb (f_omit i) OAlways).
+Definition cextractable (i : finfo) (x : gval) : bool :=
+  (f_exported i || flattened i x) && negb (omit_eqb (f_omit i) OAlways).
 
 Fixpoint cwalk (cfg : icfg) (v : gval) {struct v} : dval * list citem :=
   match v with
@@ -834,8 +843,8 @@ Fixpoint cwalk (cfg : icfg) (v : gval) {struct v} : dval * list citem :=
            match fs with
            | [] => []
            | (i, x) :: r =>
-               (if cextractable i then
-                  if f_anon i then snd (cwalk cfg x)
+               (if cextractable i x then
+                  if flattened i x then snd (cwalk cfg x)
                   else [(i, should_include cfg i (is_empty x) (is_value_zero x), fst (cwalk cfg x))]
                 else []) ++ go r
            end) fs in
@@ -884,7 +893,7 @@ Definition record_names (cfg : icfg) (v : gval) : list bytes :=
 (* an embedded struct with a lower-case type name (not tagged `omit`) promotes no field: what it
    holds has no exported field to show *)
 Definition promoted_ok (cfg : icfg) (i : finfo) (x : gval) : bool :=
-  negb (f_anon i && negb (f_exported i) && negb (omit_eqb (f_omit i) OAlways))
+  negb (flattened i x && negb (f_exported i) && negb (omit_eqb (f_omit i) OAlways))
   || is_nil (snd (cwalk cfg x)).
 
 (* [descr cfg v]: v avoids the open defect classes of the iterator:
